@@ -1,28 +1,55 @@
 /-
   C13 — isolates isolate.  Stated on the Spec (UAX #9 itself, `UBidi.Spec.UAX9`).
 
-  Layers:
+  Layers (all proved in full, for all inputs):
   * `C13_matching`          BD9: the PDI after a balanced content matches the initiator before it
   * `C13_para_level`        P2/P3 do not look inside a matched isolate
   * `C13_fsi_outside`       X5c: FSIs outside the pair resolve the same way
   * `C13_state_restored`    X1–X8: at the matching PDI the machine is back in the state at the initiator
   * `C13_explicit_outside`  X1–X8: explicit levels/types outside the pair do not depend on the content
-  * `C13_isolation`         X1–X10, W, N, I and the removed-character fill: the resolved level of every
-                            character outside a valid matched pair does not depend on the content
+  * `C13_isolation`         X1–X10, W, N, I and the removed-character fill (`Spec.paragraphLevels`): the
+                            resolved level of every character outside a valid matched pair does not
+                            depend on the content
+  * `C13_isolation_raw`     the same end to end on the raw classes: P2–P3 (`Spec.paraLevel`), X5c
+                            (`Spec.resolveFSI`) and `Spec.paragraphLevels` together
 
-  `IsoBalanced` is defined in `UBidi/Lemmas/C13Match.lean` (same namespace) because the helper
-  lemmas need it.
+  `IsoBalanced` (the inductive predicate requested for this file) is defined in
+  `UBidi/Lemmas/C13Match.lean`, same namespace, because the helper lemmas need it; it is proved
+  equivalent to the Bool depth counter `balD 0` in `UBidi/Lemmas/C13Bal.lean`
+  (`isoBalanced_iff`, restated below), which also makes it decidable.
+
+  Helper files: `UBidi/Lemmas/C13Match.lean` (BD9, P2, X5c), `C13Explicit.lean` (X1–X8 balance lemma),
+  `C13Runs.lean` (BD7), `C13MatchTable.lean`, `C13Seqs.lean` (BD13), `C13Resolve.lean` (one sequence
+  reads only its own positions and its two neighbours), `C13Fill.lean`, `C13Assemble.lean`,
+  `C13Bal.lean`, `C13Raw.lean`.
 -/
 import UBidi.Lemmas.C13Assemble
 import UBidi.Lemmas.C13Raw
 namespace UBidi.Props.C13
 open UBidi UBidi.Spec BidiClass
 
+/-- characters for the examples -/
+private def ch (c : BidiClass) : Ch := { cls := c }
+private def txt (l : List BidiClass) : List Ch := l.map ch
+
+/-- the inductive `IsoBalanced` and the Bool depth counter agree -/
+theorem C13_balanced_iff (w : List BidiClass) : IsoBalanced w ↔ balD 0 w = true := isoBalanced_iff w
+
+/-- non-vacuity: concrete contents (embeddings, a PDF that finds nothing to pop inside the nested isolate,
+    a nested pair) are balanced; an unmatched PDI or initiator is not.  (`decide` through `isoBalanced_iff`.) -/
+example : IsoBalanced [RLE, LRI, PDF, PDI, PDF, PDF, AL, EN] := by decide
+example : IsoBalanced [PDF, PDF] := by decide
+example : ¬ IsoBalanced [LRI, PDI, PDI, LRI] := by decide
+example : ¬ IsoBalanced [L, B] := by decide
+
 /-- the PDI after a balanced content is the match of the initiator before it -/
 theorem C13_matching (w : List BidiClass) (hw : IsoBalanced w) (rest : List BidiClass) (d pos : Nat) :
     Spec.matchingPDI (w ++ .PDI :: rest) d pos =
       (if d = 0 then some (pos + w.length) else Spec.matchingPDI rest (d - 1) (pos + w.length + 1)) :=
   matching_balanced w hw rest d pos
+
+/-- test of `C13_matching` on one input -/
+example : matchingPDI ([L, LRI, R, PDI, EN] ++ PDI :: [L, PDI]) 0 10 = some 15 := by decide
 
 /-- P2/P3 do not look inside a matched isolate: the paragraph level does not depend on the content -/
 theorem C13_para_level (pre suf w1 w2 : List BidiClass) (i : BidiClass) (hi : i = .LRI ∨ i = .RLI)
@@ -36,6 +63,10 @@ theorem C13_para_level (pre suf w1 w2 : List BidiClass) (i : BidiClass) (hi : i 
     simp only
     rw [firstStrong_outside i hi' w1 w2 h1 h2 pre.length pre suf _ _ (Nat.le_refl _) (Nat.lt_succ_self _)
       (Nat.lt_succ_self _)]
+
+/-- non-vacuity / test: with an R or an L inside the pair the paragraph level is that of the `AL` after it -/
+example : paraLevel none ([ON] ++ RLI :: [L, LRI, AL, PDI] ++ PDI :: [AL]) = 1 ∧
+    paraLevel none ([ON] ++ RLI :: [R] ++ PDI :: [AL]) = 1 := by decide
 
 /-- X5c outside does not depend on the content: every FSI outside the pair resolves the same way
     (and every other outside class is unchanged) -/
@@ -132,6 +163,37 @@ theorem C13_isolation (pl : Nat) (pre suf c1 c2 : List Spec.Ch) (i pdi : Spec.Ch
   obtain ⟨a2, b2⟩ := side pl pre suf c2 i pdi hi' hpdi h2 hv
   exact ⟨a1.trans a2.symm, b1.trans b2.symm⟩
 
+/-- non-vacuity of `C13_isolation`: the validity hypothesis holds for a concrete prefix (an RLE and an
+    open LRI before the initiator), the contents are balanced -/
+example :
+    let pl := 1
+    let pre := txt [R, RLE, LRI, L, EN]
+    let i := ch RLI
+    let s := xFinal pl { stack := [{ level := pl, override := none, isolate := false }] } (pre.map (·.cls))
+    (s.overflowIsolate = 0 ∧ s.overflowEmbedding = 0 ∧
+        (if i.cls == .RLI then Spec.leastOddAbove (Spec.topLevel pl s)
+         else Spec.leastEvenAbove (Spec.topLevel pl s)) ≤ Spec.maxDepth) ∧
+    IsoBalanced ((txt [RLE, LRI, PDF, PDI, PDF, PDF, AL, EN]).map (·.cls)) ∧
+    IsoBalanced ((txt [BN]).map (·.cls)) := by decide
+
+/-- test of `C13_isolation` on that input: content `[RLE, LRI, PDF, PDI, PDF, PDF, AL, EN]` against a
+    content that X9 removes completely -/
+example :
+    paragraphLevels 1 (txt [R, RLE, LRI, L, EN] ++ ch RLI :: txt [RLE, LRI, PDF, PDI, PDF, PDF, AL, EN] ++
+        ch PDI :: txt [EN, PDF, AN, PDI, R, ON]) =
+      [1, 1, 3, 4, 4, 4,   4, 7, 7, 7, 7, 7, 5, 6,   4, 4, 4, 6, 3, 3, 3] ∧
+    paragraphLevels 1 (txt [R, RLE, LRI, L, EN] ++ ch RLI :: txt [BN] ++ ch PDI :: txt [EN, PDF, AN, PDI, R, ON]) =
+      [1, 1, 3, 4, 4, 4,   4,   4, 4, 4, 6, 3, 3, 3] := by decide +kernel
+
+/-- the validity hypothesis of `C13_isolation` cannot be dropped (test): after 70 nested RLE the LRI
+    overflows, its content stays in the level run of the surrounding text, and the level of the PDI
+    and of the `L` after it depend on the content (`R` against `L`) -/
+example :
+    (paragraphLevels 0 (txt (List.replicate 70 RLE) ++ ch LRI :: txt [R] ++ ch PDI :: txt [L])).drop 70
+      = [125, 125, 125, 126] ∧
+    (paragraphLevels 0 (txt (List.replicate 70 RLE) ++ ch LRI :: txt [L] ++ ch PDI :: txt [L])).drop 70
+      = [125, 126, 126, 126] := by decide +kernel
+
 /-- **C13 end to end** (P2–P3, X5c, X1–X10, W, N, I, fill), on the raw classes: `applyX5c t` is the
     paragraph `t` with the classes after X5c (`Spec.resolveFSI`), the paragraph level is
     `Spec.paraLevel forced`.  For an LRI or RLI `i` that is valid where it stands (hypothesis
@@ -212,5 +274,17 @@ theorem C13_isolation_raw (forced : Option Nat) (pre suf c1 c2 : List Spec.Ch) (
   apply C13_isolation pl1 pre1 (applyX5c suf) c1' c2' i pdi (by rcases hi with h | h <;> simp [h]) hpdi hb1 hb2
   rw [hp1]
   exact hvalid
+
+/-- non-vacuity / test of `C13_isolation_raw`: an FSI in the prefix whose scope contains the pair, FSIs
+    inside the contents; paragraph level by P2–P3 -/
+example :
+    let pre := txt [FSI, ON]
+    let suf := txt [AL, PDI, L]
+    let t1 := pre ++ ch RLI :: txt [FSI, R, PDI, L] ++ ch PDI :: suf
+    let t2 := pre ++ ch RLI :: txt [EN] ++ ch PDI :: suf
+    (t1.map (·.cls) |> paraLevel none) = 0 ∧ (t2.map (·.cls) |> paraLevel none) = 0 ∧
+    (applyX5c t1).map (·.cls) = [RLI, ON, RLI, RLI, R, PDI, L, PDI, AL, PDI, L] ∧
+    paragraphLevels 0 (applyX5c t1) = [0, 1, 1,   3, 5, 3, 4,   1, 1, 0, 0] ∧
+    paragraphLevels 0 (applyX5c t2) = [0, 1, 1,   4,            1, 1, 0, 0] := by decide +kernel
 
 end UBidi.Props.C13
